@@ -51,7 +51,6 @@ GUARD_IDIOMS = [
     ("depth-param", r"\bdepth\s*(?:>|>=)\s*JANET_RECURSION_GUARD", "JANET_RECURSION_GUARD"),
     ("depth-param", r"--\s*depth\s*(?:<=|==|<)\s*0|\bdepth\s*--\s*(?:<=|==|<)\s*0|\bdepth\s*<=\s*0", "JANET_RECURSION_GUARD"),
     ("ffi-recur", r"\brecur\s*==\s*0\b", "JANET_FFI_MAX_RECUR"),
-    ("recursion-guard-macro", r"\bJANET_RECURSION_GUARD\b", "JANET_RECURSION_GUARD"),
 ]
 # the VM re-entry counter is global state (janet_vm.stackn), so a function that directly calls a helper whose body
 # contains that check is guarded as well (janet_continue / janet_continue_signal -> janet_check_can_resume)
@@ -60,6 +59,14 @@ HELPER_IDIOM = GUARD_IDIOMS[0]
 # indirect-call edges judged infeasible: (caller regex, callee regex, reason, checker name or None).
 # Fixed on the clean tree; trusted base.  A checker re-validates the written reason against the current source.
 EXEMPT_INDIRECT = [
+    (r"janet_method_invoke|janet_text_substitution", r"cfun_\w*slice|cfun_\w*replace\w*|janet_core_slice",
+     "C-function dispatch: a slice/replace C function re-enters method dispatch without janet_call only through janet_length "
+     "on an abstract value without a length callback (no core abstract type maps :length to a slice function) or through the "
+     "substitution argument of string/peg replace, which is called with the matched text only so that the re-entered replace "
+     "fails its arity check: depth <= 3 (read, not mechanically validated)", None),
+    (r"janet_description_b|janet_to_string_b", r".*", "abstract-type tostring callbacks only format scalars: their janet_formatb "
+     "format strings contain no value conversion (%v %q %p %j %m %n %t ...), so they never re-enter the printer on a janet value",
+     "check_tostring_scalar"),
     ("janet_async_end", r".*", "janet_async_end invokes fiber->ev_callback only with the constant JANET_ASYNC_EVENT_DEINIT; in every "
      "callback the DEINIT/default branch releases state and returns without calling janet_async_end again", "check_deinit_branch"),
 ]
@@ -69,6 +76,8 @@ EXEMPT_INDIRECT = [
 # given by the argument) and listed in the evidence; the checker re-validates the argument on the current source and the
 # exemption is dropped (-> unguarded cycle) when it no longer applies.
 EXEMPT_BOUNDED = {
+    "janet_continue_no_check": ("every caller (janet_continue, janet_continue_signal, run_vm's JOP_RESUME/JOP_CANCEL blocks) calls "
+                                "janet_check_can_resume (stackn >= JANET_RECURSION_GUARD) immediately before it", "check_no_check_callers"),
     "doarg_1": ("self call only for argtype == JANET_OAT_TYPE and passes JANET_OAT_SIMPLETYPE, for which a tuple is an error: depth <= 2",
                 "check_doarg"),
     "dohead_destructure": ("self call only when opts.flags has JANET_FOPTS_DROP, and the callee gets subopts with DROP cleared: depth <= 2",
@@ -128,6 +137,35 @@ def check_deinit_branch(g, bodies, ir):
     return None
 
 
+def check_tostring_scalar(g, bodies, ir):
+    for (a, b), k in g.raw_edges.items():
+        if a not in ("janet_description_b", "janet_to_string_b") or k != "indirect":
+            continue
+        body = bodies.get(b) or ""
+        for m in re.finditer(r"janet_formatb\w*\s*\(\s*\w+\s*,\s*\"((?:[^\"\\\\]|\\\\.)*)\"", body):
+            for conv in re.findall(r"%[-+ #0-9.]*(?:ll|l|h)?([a-zA-Z])", m.group(1)):
+                if conv not in "diuxXsfgGeEc":
+                    return "%s formats with %%%s" % (b, conv)
+        if re.search(r"janet_(description|to_string|pretty|formatbv|jdn)\w*\s*\(", body):
+            return "%s calls the value printer" % b
+    return None
+
+
+def check_no_check_callers(g, bodies, ir):
+    for nm, f in ir.funcs.items():
+        if "janet_continue_no_check" not in f["calls"]:
+            continue
+        body = bodies.get(nm) or ""
+        for m in re.finditer(r"\bjanet_continue_no_check\s*\(", body):
+            start = max(body.rfind("VM_OP(", 0, m.start()), 0)
+            if "janet_check_can_resume(" not in body[start:m.start()]:
+                return "%s calls janet_continue_no_check without janet_check_can_resume before it" % nm
+    hb = bodies.get("janet_check_can_resume") or ""
+    if not re.search(HELPER_IDIOM[1], hb):
+        return "janet_check_can_resume no longer tests stackn"
+    return None
+
+
 def check_doarg(g, bodies, ir):
     b = bodies.get("doarg_1") or ""
     calls = re.findall(r"doarg_1\s*\(([^;]*?)\)\s*;", b)
@@ -173,7 +211,7 @@ def check_defs_creators(g, bodies, ir):
     return None
 
 
-CHECKERS = {"check_deinit_branch": check_deinit_branch, "check_doarg": check_doarg, "check_dohead": check_dohead,
+CHECKERS = {"check_no_check_callers": check_no_check_callers, "check_tostring_scalar": check_tostring_scalar, "check_deinit_branch": check_deinit_branch, "check_doarg": check_doarg, "check_dohead": check_dohead,
             "check_addenv": check_addenv, "check_defs_creators": check_defs_creators}
 
 
@@ -623,8 +661,16 @@ def extract(build, exempt=None):
                 g.guard[nm] = (tag, g.limits.get(lim, 0))
                 break
         else:
+            # helper rule: the helper is a pure check (not itself on a cycle) and its call textually precedes the first
+            # call of any function on a cycle (janet_continue: `tmp = janet_check_can_resume(..); if (tmp) return tmp;`)
             for h in helpers:
-                if h in ir.funcs[nm]["calls"]:
+                if h in g.nodes or h not in ir.funcs[nm]["calls"]:
+                    continue
+                mh = re.search(r"\b%s\s*\(" % re.escape(h), body)
+                firsts = [m.start() for c in set(ir.funcs[nm]["calls"]) if c in cyc and c != h
+                          for m in [re.search(r"\b%s\s*\(" % re.escape(c), body)] if m]
+                has_indirect = bool(ir.funcs[nm]["icalls"])
+                if mh and not has_indirect and all(mh.start() < f for f in firsts):
                     g.guard[nm] = (HELPER_IDIOM[0] + "-via-" + h, g.limits.get(HELPER_IDIOM[2], 0))
                     break
     g.bodies = bodies
@@ -640,14 +686,18 @@ def extract(build, exempt=None):
         else:
             g.bounded[nm] = reason
     used_indirect = sorted(set(w for _, _, w in g.exempted))
+    failed_ind = []
     for ra, rb, reason, chk in exempt:
         if chk and reason in used_indirect:
             err = CHECKERS[chk](g, bodies, ir)
             if err:
                 g.exemption_failures.append((ra, err))
-    if g.exemption_failures and any(nm == "janet_async_end" for nm, _ in g.exemption_failures):
-        # the exemption of the callback edges no longer holds: redo with those edges kept
-        return extract(build, exempt=[e for e in exempt if e[0] != "janet_async_end"])
+                failed_ind.append(ra)
+    if failed_ind:
+        # the exemption of those indirect edges no longer holds: redo with the edges kept
+        g2 = extract(build, exempt=[e for e in exempt if e[0] not in failed_ind])
+        g2.exemption_failures = g.exemption_failures + g2.exemption_failures
+        return g2
     for nm in g.bounded:
         g.guard[nm] = ("bounded", 0)
     # rank certificate: longest path in the non-guard subgraph (per SCC); cycles -> leftover nodes
